@@ -294,3 +294,28 @@ PROPS["C20"] = dict(
                 quick=dict(workers=16, checks=1500, steps=1, watchdog_s=900),
                 thorough=dict(workers=16, checks=150000, steps=1, watchdog_s=7200))],
 )
+
+PROPS["C16"] = dict(
+    level="exploration",
+    engine="envsim",
+    technique="deterministic simulation of the generator's environment: the plug-in's real run() inside a testing/synctest bubble with a positioned fake clock, drawn working directory, environment and GOMAXPROCS, plus the built binary as a process with drawn stdin chunking; byte comparison of responses to identical requests",
+    design_ref="DESIGN.md 4.6, 5 (C16)",
+    level_text=("ONLY the determinism clause is claimed (plus what the pipeline observes anyway). For each of the nine example schemas' CodeGeneratorRequests and drawn option variants "
+                "(enableunsafedecode, filepermessage on/off, special names), 3-6 runs of the identical request are made under a drawn simulated clock position (0, 1 ns, across second / "
+                "minute / day / year boundaries, +10 years), working directory, scrubbed and randomised environment (incl. TZ, SOURCE_DATE_EPOCH, USER, HOME...), GOMAXPROCS, in process "
+                "(real run(): flag parsing, protogen, doGenerate, templates) and as a real process with stdin delivered in drawn chunk sizes; all responses must be byte-identical. "
+                "By-product, not simulation: the plug-in reports no error, no output file name occurs twice, names end in .pb.fm.go and every file parses as Go; that the example corpus "
+                "compiles with the runtimes' message types is established by every other check's build of the regenerated corpus. Random schemas and the full option x feature product are "
+                "input space and not covered; Go map iteration order is sampled by repetition, not controlled."),
+    level_note="Trusted: testing/synctest (go1.26.8) as the fake clock, the helper test file added to the scratch copy, the request extractor (byte-identical regeneration on the unchanged tree).",
+    needs=["plugin", "fastmarshal_helper"],
+    sim_time="the generator reads time.Now(); the simulated clock is positioned per run inside a synctest bubble; the span covered is reported as extra.simulated_clock_span_s (sum over executions) - no timers or deadlines exist in the code",
+    rule=("one execution = one example request with a drawn option variant, run 3-6 times under drawn clock/cwd/environment/GOMAXPROCS/stdin framing; every execution is non-trivial (at least two "
+          "differently situated runs are compared); distinct = hash of request name, parameters and steps"),
+    real=["run(), doGenerate, generator.go, funcs.go, render.go, the three templates, protogen", "the built plug-in as a process"],
+    model=["clock (synctest bubble)", "working directory", "environment", "GOMAXPROCS", "stdin chunking"],
+    assumptions=["an environment variable that is not in the drawn set, the host name and the process id are not controlled (the latter two differ between the helper and the process runs anyway)"],
+    tests=[dict(name="TestC16Env", pkg="c16", race=False, mem_gb=16,
+                quick=dict(workers=16, checks=60, steps=1, watchdog_s=1500),
+                thorough=dict(workers=16, checks=4000, steps=1, watchdog_s=7200))],
+)
